@@ -134,6 +134,21 @@ def _exc(e):
     return "%s: %s" % (type(e).__name__, str(e)[:160])
 
 
+EXACT_NMAX_UNITARY = 4
+EXACT_NMAX_ISOMETRY = 3
+EXACT_NMAX_LOWRANK = 4
+
+UNREACHED_JUSTIFIED = {
+    "qclib/unitary.py:_qrd,_build_qr_circuit,_build_qr_gate_sequence,_get_row_col,_row_and_col_qubits,_apply_mcxs,_undo_mcxs,_apply_cx,"
+    "_append_mcmt_gate,build_unitary:104->105": "'qr' decomposition has no estimate and is not an option combination of C10 (C02 covers it)",
+    "qclib/unitary.py:40->45,46->47": "validation raises on invalid input (C16)",
+    "qclib/unitary.py:53-57": "A.2 fallback on QiskitError: degenerate two-qubit blocks only, not general position (C02 probes it)",
+    "qclib/unitary.py:212->214,_closest_unitary": "degenerate eigenvalues of gate1 @ gate2^dagger: structured input, outside general position (C02)",
+    "qclib/isometry.py:74->75,78->79,82->83,84->85": "validation raises on invalid input (C16)",
+    "qclib/isometry.py:301->315": "zero column pair in Lemma 2: only for structured isometries (exact zeros), outside general position (C03)",
+}
+
+
 def job_unitary(n, dec, iso, a2, seed):
     from qclib.unitary import unitary, build_unitary, cnot_count
     u = haar(2 ** n, seed)
@@ -146,6 +161,11 @@ def job_unitary(n, dec, iso, a2, seed):
         res["cx"] = cx_count(unitary(u.copy(), dec, iso, a2))
     except Exception as e:  # noqa: BLE001
         res["cx_exc"] = _exc(e)
+    if n <= EXACT_NMAX_UNITARY:     # the library's own method='exact' (transpile inside cnot_count; 'return 0' when no cx at n=1)
+        try:
+            res["exact"] = int(cnot_count(u.copy(), dec, "exact", iso, a2))
+        except Exception as e:  # noqa: BLE001
+            res["exact_exc"] = _exc(e)
     if a2:      # the shape is that of the circuit before _apply_a2 flattens it
         try:
             res["tokens"] = walk(build_unitary(u.copy(), dec, iso), [])
@@ -165,6 +185,11 @@ def job_isometry(n, m, scheme, seed, vec1d=False):
         res["est"] = int(cnot_count(v.copy(), scheme, "estimate"))
     except Exception as e:  # noqa: BLE001
         res["est_exc"] = _exc(e)
+    if n <= EXACT_NMAX_ISOMETRY:
+        try:
+            res["exact"] = int(cnot_count(v.copy(), scheme, "exact"))
+        except Exception as e:  # noqa: BLE001
+            res["exact_exc"] = _exc(e)
     try:
         circ = decompose(v.copy(), scheme)
         res["cx"] = cx_count(circ)
@@ -221,13 +246,32 @@ def job_lowrank(n, partition, lr, iso, uni, seed):
         except Exception as e:  # noqa: BLE001
             res["est_exc"] = _exc(e)
         try:
-            g = lrmod.LowRankInitialize(v.copy(), opt_params={"lr": lr, "iso_scheme": iso, "unitary_scheme": uni,
-                                                              "partition": None if part is None else list(part)})
-            res["cx"] = cx_count(g.definition)
+            opt = {"lr": lr, "iso_scheme": iso, "unitary_scheme": uni, "partition": None if part is None else list(part)}
+            form = (seed % 4) if (iso, uni) == ("ccd", "qsd") else 0
+            if form:        # default schemes: leave the keys out (lowrank.py __init__ fills them in)
+                opt = {"lr": lr, "partition": opt["partition"]}
+            if form == 2:
+                g = lrmod.LowRankInitialize(v.copy(), label="psi", opt_params=opt)
+                res["cx"] = cx_count(g.definition)
+            elif form == 3:   # static entry point, qubits=None / explicit list
+                from qiskit import QuantumCircuit
+                host = QuantumCircuit(n)
+                lrmod.LowRankInitialize.initialize(host, v.copy(), qubits=None if (seed // 4) % 2 else list(range(n)), opt_params=opt)
+                res["cx"] = cx_count(host)
+            else:
+                g = lrmod.LowRankInitialize(v.copy(), opt_params=opt)
+                res["cx"] = cx_count(g.definition)
+            res["form"] = form
         except Exception as e:  # noqa: BLE001
             res["cx_exc"] = _exc(e)
     finally:
         lrmod.decompose_isometry, lrmod.decompose_unitary, lrmod.cnots_isometry, lrmod.cnots_unitary = orig
+    if n <= EXACT_NMAX_LOWRANK and iso != "knill":
+        try:        # the library's own method='exact': leaves counted by transpile, summed phase by phase
+            res["exact"] = int(lrmod.cnot_count(v.copy(), low_rank=lr, isometry_scheme=iso, unitary_scheme=uni,
+                                                partition=None if part is None else list(part), method="exact"))
+        except Exception as e:  # noqa: BLE001
+            res["exact_exc"] = _exc(e)
     p = part if part is not None else lrmod._default_partition(n)
     rank = schmidt_decomposition(v.copy(), list(p), rank=lr)[0]
     res["p"] = len(p)
@@ -414,6 +458,8 @@ def isometry_cases(ctx, nmax, nknill, nbig=None):
                 out.append(("isometry", n, m, scheme, ctx.rng.getrandbits(30), False))
         for scheme in ("ccd", "csd") + (("knill",) if 2 <= n <= nknill else ()):
             out.append(("isometry", n, 0, scheme, ctx.rng.getrandbits(30), True))      # 1-D state vector input
+    for m in (0, 1):        # Knill on one qubit: decompose raises (documented); the estimate takes its no-cx branch
+        out.append(("isometry", 1, m, "knill", ctx.rng.getrandbits(30), False))
     if nbig:
         for m in sorted({0, 1, nbig // 2, nbig - 1}):
             for scheme in ("ccd", "csd"):
@@ -504,11 +550,26 @@ def evaluate(ctx, jobs, results, struct):
         if "est_exc" in res or "cx_exc" in res:
             # Knill is documented not to work on one qubit
             if kind == "isometry" and job[3] == "knill" and job[1] < 2:
+                ctx.count("branch:knill-one-qubit:" + ("synthesis-rejects" if "cx_exc" in res else "synthesis-accepts")
+                          + ("/estimate-raises" if "est_exc" in res else "/estimate=%s" % res.get("est")))
                 continue
             which = "estimate-raises" if "est_exc" in res else "synthesis-raises"
             ctx.fail(f"{key}:{which}", res.get("est_exc") or res.get("cx_exc"), dict(rep, observed=res))
             continue
         est, cx = res["est"], res["cx"]
+        if "exact_exc" in res:
+            ctx.fail(f"{key}:exact-method-raises", res["exact_exc"], dict(rep, observed=res))
+        elif "exact" in res:
+            ctx.count("branch:method=exact:" + kind)
+            if res["exact"] == 0:
+                ctx.count("branch:method=exact:no-cx(return 0):" + kind)
+            if res["exact"] != cx:
+                ctx.fail(f"{key}:exact-method={res['exact']}:circuit={cx}", "cnot_count(..., method='exact') differs from the "
+                         "transpiled count of the circuit built for the same input", dict(rep, observed=res))
+            else:
+                ctx.ok(key + ":exact-method", job[1] >= 2, None)
+        if kind == "lowrank" and res.get("form"):
+            ctx.count("branch:lowrank-entry-form:%d" % res["form"])
         nontrivial = job[1] >= (3 if kind == "unitary" else 2)
         sample = {"call": key, "estimate": est, "circuit_cx": cx, "structural": st}
         if kind == "unitary":
